@@ -141,6 +141,10 @@ BASE_TABLE = [
     ("Co", {"Co": 1}, ("el", "Co")),
     ("Ti", {"Ti": 1}, ("el", "Ti")),
     ("SiO2", {"Si": 1, "O": 2}, None),
+    # a pure element written with a subscript (the structure is ONE atom entry whose count is not 1), with a tag
+    # and with the density it inherits from its element
+    ("N2@0.8", {"N": 2}, ("i", 0.8)),
+    ("S8", {"S": 8}, ("el", "S")),
     # forced collisions: the SAME compound (equal structure) with another density
     ("H2O@0.92", {"H": 2, "O": 1}, ("i", 0.92)),
     ("SiO2@2.2", {"Si": 1, "O": 2}, ("i", 2.2)),
